@@ -5,6 +5,7 @@ Implementation: echs_instant_utc / echs_instant_loc / echs_tzob_offs on a fresh 
 mktime with both isdst guesses) — asked in the same harness.  Correspondence: Echse.Model.Tz fed with the
 zone's v1 table as parsed independently by vlib/tzif.py.
 """
+import collections
 import datetime
 
 from . import common
@@ -168,6 +169,32 @@ def run(ctx):
                 if g != want:
                     fails.append((ops2[i], j, "%s: local %s is UTC %s per the system database, echse says %s"
                                   % (z, c[1][:6], inst_of_epoch(c[2])[:6], unhex16(g)[:6] if len(g) == 16 else g)))
+    # ---- many zones in one process: the instant's zone field has six bits
+    import zoneinfo
+    many = [z for z in zones_all if "/" in z and not z.startswith(("Etc/", "posix", "right"))]
+    many = rng.sample(many, min(len(many), 70))
+    w0 = (2024, 7, 1, 12, 0, 0, 1023)
+    ops3 = ["z.seq %s - # u:%s" % (z, hex16(*w0)) for z in many]
+    out3, st3, err3 = ctx.impl(exe, ops3)
+    known = collections.Counter()
+    for k, z in enumerate(many):
+        try:
+            u = datetime.datetime(*w0[:6], tzinfo=zoneinfo.ZoneInfo(z)).astimezone(datetime.timezone.utc)
+        except Exception:
+            continue
+        want = hex16(u.year, u.month, u.day, u.hour, u.minute, u.second, 1023)
+        g = out3[k] if k < len(out3) else "<no answer>"
+        if g != want:
+            if k >= 63:
+                known["zone-limit"] += 1      # finding D147: the 64th and later zones of a process are taken for UTC
+            else:
+                fails.append((ops3[k], 0, "%s (zone number %d of this process): local noon of 2024-07-01 is UTC %s per the system "
+                              "database, echse says %s" % (z, k + 1, (u.hour, u.minute), unhex16(g)[3:5] if len(g) == 16 else g)))
+    for kf in common.load_known("C07"):
+        if kf.get("status") == "known" and known.get(kf.get("class"), 0):
+            ctx.known(kf["what"])
+    if known and not any(kf.get("status") == "known" and kf.get("class") == "zone-limit" for kf in common.load_known("C07")):
+        fails.append((ops3[63], 0, "the 64th and later zones of one process are converted as if they were UTC"))
     seq_ops = [o for o in ops2 if o.startswith("z.seq")]
     seq_impl = [a for o, a in zip(ops2, out2) if o.startswith("z.seq")]
     model = ctx.model(seq_ops)
